@@ -374,7 +374,7 @@ fn main() {
     let n_hist = args.get_u64("histories", if args.thorough() { 64 } else { 8 });
     let n_ops = args.get_u64("ops", if args.thorough() { 120 } else { 60 });
     let evals = args.extra.get("evals").cloned().unwrap_or("agrees,c04_ok,c03_ok,c14_ok".into());
-    let header = "From KV Require Import base.Tac ca.Ca ca.CaCheck.\nOpen Scope N_scope.";
+    let header = "From KV Require Import base.Tac ca.Ca ca.CaCheck ca.CaOracleProofs.\nOpen Scope N_scope.";
     let footer: String = evals.split(',').map(|e| format!("Eval vm_compute in (failing {e} base_index cases).")).collect::<Vec<_>>().join("\n");
     let out = Mutex::new(Out { w: CaseWriter::new(&args.out, header, "list case", &footer, 60),
         jsonl: std::fs::File::create(args.out.join("cases.jsonl")).unwrap(), op_hist: BTreeMap::new(), cmd_hist: BTreeMap::new(), err_hist: BTreeMap::new(),
